@@ -320,6 +320,7 @@ var modelFuncs = map[string]string{
 	"(net/http.Header).Del":     "vpmHeaderDel",
 	"(net/http.Header).Values":  "vpmHeaderValues",
 	"context.WithTimeout":       "vpmWithTimeout",
+	"context.WithDeadline":      "vpmWithDeadline",
 	"context.WithCancel":        "vpmWithCancel",
 	"(*sync.Map).Load":          "vpmSyncMapLoad",
 	"(*sync.Map).Store":         "vpmSyncMapStore",
